@@ -240,7 +240,7 @@ def parse_field_values_to_vinfo(field_values: FieldValues) -> version.V2VersionI
     minor = int(fvals.get('minor') or 0)
     patch = int(fvals.get('patch') or 0)
     num   = int(fvals.get('num'  ) or 0)
-    bid   = fvals['bid'] if 'bid' in fvals else "1000"
+    bid   = fvals.get('bid') or "1000"
     inc0  = int(fvals.get('inc0') or 0)
     inc1  = int(fvals.get('inc1') or 1)
 
